@@ -13,13 +13,16 @@ def run(ctx):
     bad3 = ctx.run_tlc("MC_PamClient.tla", "MC_PamClient_bad_deadline.cfg", workers=1, timeout=300)
     if bad3["status"] != "violation":
         ctx.inconclusive.append("wrong variant MC_PamClient_bad_deadline.cfg not refuted")
+    bad4 = ctx.run_tlc("MC_PamClient.tla", "MC_PamClient_bad_eintr.cfg", workers=1, timeout=300)
+    if bad4["status"] != "violation" or not any("PamTerminates" in e for e in bad4["errors"]):
+        ctx.inconclusive.append("wrong variant MC_PamClient_bad_eintr.cfg not refuted")
     bad2 = ctx.run_tlc("MC_PamClient.tla", "MC_PamClient_bad_sigpipe.cfg", workers=1, timeout=300)
     if bad2["status"] != "violation" or not any("PamYieldsCode" in e for e in bad2["errors"]):
         ctx.inconclusive.append("wrong variant MC_PamClient_bad_sigpipe.cfg not refuted")
     edges = res["edges"]
     if not thorough:          # quick: every reply x cut x ending once; delays and the stale errno on a seeded third
         rng = random.Random(ctx.seed)
-        edges = [e for e in edges if (e["script"]["delay"] == "none" and not e["script"]["staleErrno"]) or rng.random() < 0.25]
+        edges = [e for e in edges if (e["script"]["delay"] == "none" and not e["script"]["staleErrno"]) or rng.random() < 0.25 or e["script"].get("signals", "none") != "none"]
         edges = [e for e in edges if e["script"]["reads"] or e["script"]["cut"] in (0, 2, 4) or rng.random() < 0.2]
     results = pamfam.run_all(ctx, edges)
     n = pamfam.judge(ctx, results)
@@ -47,6 +50,7 @@ def run(ctx):
                 "per_config": {"MC_PamClient_code.cfg": {"distinct": res["distinct"], "scripts": len(res["edges"])},
                                "MC_PamClient_bad_staleerrno.cfg": {"status": bad["status"], "expected": "violation of PamTerminates"},
                                "MC_PamClient_bad_sigpipe.cfg": {"status": bad2["status"], "expected": "violation of PamYieldsCode"},
+                               "MC_PamClient_bad_eintr.cfg": {"status": bad4["status"], "expected": "violation of PamTerminates (a stream of signals restarts the wait for ever)"},
                                "MC_PamClient_bad_deadline.cfg": {"status": bad3["status"], "expected": "stuck before the first write (never terminates)"}},
                 "rule": "every server script of the PamClient model (reply x cut point x delay x close/stall x errno on entry) is played "
                         "by a scripted unix-socket server against the compiled unmodified module (ASan+UBSan), with user/password "
